@@ -56,6 +56,9 @@ func (t *brokerPublishTransactionBase) regack(snRegack *snPkts1.Regack, newState
 	}
 	snRegister := t.Data.(*snPkts1.Register)
 	t.handler.registeredTopics.Store(snRegister.TopicID, snRegister.TopicName)
+	// The client knows the TopicID now, whatever happens to a subscription
+	// which it may have been allocated for.
+	t.handler.provisionalTopicIDConfirm(snRegister.TopicID)
 	return t.ProceedSN(newState, t.snPublish)
 }
 
